@@ -60,6 +60,7 @@ func registerStd(p *Program) {
 	}
 
 	registerJSON(p)
+	registerJDoc(p)
 	registerGob(p)
 
 	// ---- regexp: only what jsonreference/internal uses ----
